@@ -261,7 +261,7 @@ func init() {
 		if err != nil {
 			return "", err
 		}
-		var agg [][2]string
+		var agg, aggHead [][2]string
 		for _, c := range cs {
 			text := ""
 			ast.Inspect(&ast.BlockStmt{List: c.body}, func(n ast.Node) bool {
@@ -276,12 +276,18 @@ func init() {
 				return "", fmt.Errorf("getAggregator: case %q: no SQL text", c.key)
 			}
 			agg = append(agg, [2]string{c.key, text})
+			head, _, ok := strings.Cut(text, "(")
+			if !ok {
+				return "", fmt.Errorf("getAggregator: case %q: SQL text is not a function call", c.key)
+			}
+			aggHead = append(aggHead, [2]string{c.key, head})
 		}
 		s := "namespace Qryn.Gen\n" +
 			leanPairs("traceqlCmpOps", "`getComparisonFn` (shared.go): TraceQL comparison → SQL operator", cmp) +
 			leanPairs("traceqlNumOps", "`getTermNum` (attr_condition.go): TraceQL operator → SQL operator on `toFloat64OrZero(val)`", num) +
 			leanPairs("traceqlStrOps", "`getTermStr` (attr_condition.go): TraceQL operator → shape of the value condition", str) +
 			leanPairs("traceqlAggs", "`getAggregator` (aggregator.go): aggregate → SQL text (`%s` = prefix)", agg) +
+			leanPairs("traceqlAggHeads", "the outermost SQL function of each aggregate", aggHead) +
 			"end Qryn.Gen\n"
 		return s, nil
 	})
